@@ -112,9 +112,9 @@ Slot(st, pos) ==
   LET m == st.main IN
   CASE pos = "where" -> m.where
     [] pos = "paren" -> m.where
-    [] pos = "project" -> m.items[1].e
+    [] pos \in {"project", "projectBare"} -> m.items[1].e
     [] pos \in {"extendNamed", "extendBare"} -> m.items[2].e
-    [] pos = "sumAgg" -> m.items[2].e
+    [] pos \in {"sumAgg", "sumAggBare"} /\ Len(m.items) >= 2 -> m.items[2].e
     [] pos \in {"sumAggBare", "sumKey", "sumKeyBare"} -> m.items[1].e
     [] pos = "sort" -> m.order[1].e
     [] pos = "sort2" -> m.order[2].e
